@@ -123,6 +123,59 @@ func runC11(ctx *Ctx) {
 		}
 		return c
 	}, func(c *Case) error { return checkC11(ctx, c, 1) })
+	runC11Deep(ctx)
+}
+
+// runC11Deep: one shared message nested some thousand levels deep (every
+// recursive type), read by many goroutines at once with the codec operations.
+// Anything the codec keeps per process rather than per call (depth counters,
+// scratch buffers) adds up across goroutines only here: goroutines x levels is
+// far beyond any per-call limit while each call stays far below it.
+func runC11Deep(ctx *Ctx) {
+	// marshalling a chain is quadratic in its depth (every level sizes its
+	// child again), so depth is kept moderate and the goroutine count high
+	grid := [][2]int{{600, 48}}
+	maxTypes := 4
+	if !ctx.Quick() {
+		grid = [][2]int{{600, 48}, {1500, 32}, {3000, 8}}
+		maxTypes = 1 << 30
+	}
+	i, used := 0, 0
+	for _, t := range model.Types() {
+		if ctx.OnlyFresh && !t.Fresh {
+			continue
+		}
+		path := cyclePath(t.Desc)
+		if path == nil {
+			continue
+		}
+		i++
+		if (i+int(ctx.Seed))%ctx.NShards != ctx.Shard {
+			continue
+		}
+		if used++; used > maxTypes {
+			break
+		}
+		for _, lg := range grid {
+			c := &Case{Sub: "deep", Type: string(t.Name), Bytes: hexs(nestedPayload(path, lg[0])), Args: map[string]string{"procs": "16", "levels": fmt.Sprint(lg[0])}}
+			for g := 0; g < lg[1]; g++ {
+				for _, op := range []string{"marshal", "detmarshal"} {
+					c.Ops = append(c.Ops, Op{H: g, Op: op})
+				}
+			}
+			ctx.Eval(1)
+			if err := safely(func() error { return checkC11(ctx, c, 1) }); err != nil {
+				if strings.HasPrefix(err.Error(), "HARNESS") {
+					fmt.Printf("HARNESS-ERROR %v\n", err)
+				} else {
+					ctx.Violation(c, err.Error())
+				}
+				ctx.T.Fail()
+			} else {
+				ctx.Label(fmt.Sprintf("deep arm: %d levels x %d goroutines", lg[0], lg[1]))
+			}
+		}
+	}
 }
 
 // announce records the case about to run so that a race report (which kills
